@@ -1,6 +1,15 @@
+#[cfg(not(tiny_http_verif))]
+fn main() {
+    eprintln!("check must be built with --cfg tiny_http_verif (use bin/check)");
+    std::process::exit(2);
+}
+
+#[cfg(tiny_http_verif)]
 use verif_harness::infra::{coordinate, worker_loop, Tier};
+#[cfg(tiny_http_verif)]
 use verif_harness::{props, report};
 
+#[cfg(tiny_http_verif)]
 fn main() {
     let args: Vec<String> = std::env::args().skip(1).collect();
     if args.is_empty() {
@@ -8,6 +17,9 @@ fn main() {
         std::process::exit(2);
     }
     let id = args[0].clone();
+    if id == "conformance" {
+        std::process::exit(verif_harness::conformance::run());
+    }
     if id == "list" {
         for c in props::all() {
             println!("{} {}", c.id(), c.level());
